@@ -224,6 +224,30 @@ class Ctx:
             raise Infra("TLC produced no states in %s; see %s\n%s" % (name, out, tail(out)))
         return res
 
+    def apalache_inductive(self, module, cinit="ConstInit", init="Init", indinit="IndInit", inv="IndInv", timeout=300):
+        """Unbounded-length safety of a small typed module by an inductive invariant (Apalache): Init => IndInv (length 0) and
+        IndInv /\\ Next => IndInv' (length 1 from IndInit). Returns True / False (invariant not inductive) / None (Apalache unavailable,
+        stalled or crashed: reported in the evidence, never a verdict)."""
+        import shutil as _sh
+        if _sh.which("apalache-mc") is None:
+            return None
+        outdir = tempfile.mkdtemp(prefix="apalache-", dir=self.scratch)
+        ok = True
+        for args in (["--init=" + init, "--length=0"], ["--init=" + indinit, "--length=1"]):
+            cmd = ["apalache-mc", "check", "--out-dir=" + outdir, "--cinit=" + cinit, "--inv=" + inv] + args + [module + ".tla"]
+            try:
+                p = subprocess.run(cmd, cwd=self.specdir, capture_output=True, text=True, timeout=timeout)
+            except subprocess.TimeoutExpired:
+                return None
+            if "EXITCODE: OK" in p.stdout:
+                continue
+            if "Checker has found an error" in p.stdout or "violated" in p.stdout:
+                ok = False
+            else:
+                return None
+        log("Apalache %s: %s is %s" % (module, inv, "inductive" if ok else "NOT inductive"))
+        return ok
+
     def tlc_many(self, jobs, parallel=4):
         """Run several TLC jobs (dicts of tlc() keyword arguments) concurrently; returns results in order."""
         from concurrent.futures import ThreadPoolExecutor
